@@ -23,7 +23,18 @@ INJECT = ["@", "`", "\\", "\\\n", "\\\n\t", "\\ \n", "\\\r\n", "/* c */", "// c\
           # directives whose name merely resembles a supported one, and every other common directive
           "\n#pragmatic once\n", "\n#pragma_pack(1)\n", "\n# pragma2 foo\n", "\n#pragmas )]{ @\n", "\n#linex 5\n", "\n#line5\n",
           "\n#lineage\n", "\n# lines 3\n", "\n#ident \"x\"\n", "\n#error x\n", "\n#undef X\n", "\n#endif\n", "\n#else\n", "\n#warning w\n",
-          "\n#\n", "\n#!\n", "\n#include_next <x.h>\n", "\n#elif 1\n", "\n#ifdef X\n"]
+          "\n#\n", "\n#!\n", "\n#include_next <x.h>\n", "\n#elif 1\n", "\n#ifdef X\n",
+          # a '#' that is not the first thing on its line introduces no directive (C99 6.10p2): stray text
+          "\0# 7\n", "\0# 5 \"x.c\"\n", "\0#line 9\n", "\0#pragma p\n"]      # \0: only after a token
+
+
+def classify(replay):
+    """open finding: a '#' in the middle of a line is taken as the start of a directive"""
+    import re
+    t = replay.get("text", "")
+    if re.search(r"[^\s#][ \t]*#[ \t]*(line\b|pragma\b|\d)", t):
+        return "F-c18-midline-directive"
+    return None
 
 
 def rejected(text):
@@ -55,6 +66,11 @@ def mutants_of(args):
     for _ in range(min(cap, len(toks) + 1)):
         j = rng.randrange(len(toks) + 1)
         inj = rng.choice(INJECT)
+        if inj.startswith("\0"):
+            if not toks:
+                continue
+            j = max(1, j)
+            inj = inj[1:]
         out.append(("inject", " ".join(toks[:j]) + " " + inj + " " + " ".join(toks[j:])))
     return out
 
@@ -88,7 +104,7 @@ def run(ctx):
     for i, ((t, k, m), r) in enumerate(zip(muts, res)):
         keys.add(m)
         if not r:
-            ctx.violation("%s mutant of an accepted program is accepted: %r" % (k, m[:160]), {"kind": "text", "text": m, "mutation": k})
+            ctx.violation("%s mutant of an accepted program is accepted: %r" % (k, m[:160]), {"kind": "text", "text": m, "mutation": k}, classify)
         elif md is not None and md[i].startswith("OK"):
             ctx.violation("Lean parser model accepts a %s mutant that the real parser rejects: %r" % (k, m[:160]), {"kind": "text", "text": m, "mutation": k})
     ctx.count(len(muts), nontrivial_keys=keys)
